@@ -115,6 +115,8 @@ def run(prop: str, tier: str, seed: int) -> int:
     for k in range({"quick": 60, "thorough": 500}[tier]):
         n = rng.choice([2, 4, 4, 6, 8])
         r = rng.choice([1, 1, 2, 3, 3, 4])
+        if k == 1:          # 128 teams: the team ids -128..128 no longer fit into 8 bits
+            n, r = 128, 1
         if (n, r) == (2, 1):
             r = 3         # one game only: moptipy's permutation space wants at least two different values
         inst = tp.make_instance(n, r)
@@ -126,7 +128,8 @@ def run(prop: str, tier: str, seed: int) -> int:
         y = m["GamePlan"](inst) if rng.random() < 0.5 else m["GamePlanSpace"](inst).create()
         y[:, :] = np.array([[rng.randint(-n, n) for _ in range(n)] for _ in range(y.shape[0])]) if y.shape[0] else 0
         enc.decode(np.array(x, dtype=np.int64), y)
-        c = {"id": f"public-{k}", "n": n, "rounds": r, "days": small(int(y.shape[0])), "bp": bp, "real": 1,
+        c = {"id": f"public-{k}", "n": n, "rounds": r, "days": small(int(y.shape[0])), "bp": bp if n < 100 else [],
+             "real": 1, "light": 1 if n >= 100 else 0,
              "decodes": [{"x": x, "plan": [[small(v) for v in row] for row in np.asarray(y).tolist()]}]}
         cases.append(c)
         if k % 3 == 0:      # the same encoding object after the number of rounds of its instance was changed
